@@ -70,8 +70,8 @@ void run(const std::string & tn)
   // the bracket is bilinear: it is judged relative to |a||b| (no floor at 1), on an alphabet that also contains tangents whose
   // every coefficient is tiny but non-zero (1e-13) and huge-times-tiny pairs
   AlphaOpts bo = AlphaOpts::reduced();
-  bo.thetas.push_back(1e-13);
-  bo.tmags.push_back(1e-13);
+  bo.extra_thetas = {1e-13};  // also reaches the parts of Bundles
+  bo.extra_tmags  = {1e-13};
   auto Tr = tangents<R, S>(bo);
   const uint64_t n = Tr.size();
   mc::explore("C03/bracket/" + tn, n * n, [&](mc::Case & c) {
